@@ -66,7 +66,7 @@ def c02_case(inp):
 
 
 # ------------------------------------------------------------------------------------------------ C08
-def _c08_ok(algo, values, k, res):
+def _c08_ok(algo, values, k, res, iterations=10):
     sums = [num(s) for s in res[0][0]]
     lists = res[0][1]
     mx, mn = max(sums), min(sums)
@@ -90,23 +90,27 @@ def _c08_ok(algo, values, k, res):
                 return f"smallest sum {mn} < (3k-1)/(4k-2)*OPT, OPT={optmin}"
         if algo == "multifit":
             opt = spec.opt_part(values, k, "min-max")
-            if Fraction(mx) > (Fraction(122, 100) + Fraction(1, 2 ** 10)) * opt:
-                return f"multifit largest sum {mx} > (1.22+2^-10)*OPT, OPT={opt}"
+            if Fraction(mx) > (Fraction(122, 100) + Fraction(1, 2 ** iterations)) * opt:
+                return f"multifit largest sum {mx} > (1.22+2^-{iterations})*OPT, OPT={opt}"
     return None
 
 
-@deal.pre(lambda algo, values, k: len(values) >= 1 and all(isinstance(v, int) and v >= 0 for v in values) and k >= 1)
-@deal.ensure(lambda algo, values, k, result: _c08_ok(algo, values, k, result) is None, message="C08: worst-case guarantee violated")
-def c08_guarantee(algo, values, k):
-    return run_partition(algo, values, k, "list")
+@deal.pre(lambda algo, values, k, fmt="list", iterations=None: len(values) >= 1 and all(isinstance(v, int) and v >= 0 for v in values) and k >= 1)
+@deal.ensure(lambda algo, values, k, fmt="list", iterations=None, result=None: _c08_ok(algo, values, k, result, iterations or 10) is None, message="C08: worst-case guarantee violated")
+def c08_guarantee(algo, values, k, fmt="list", iterations=None):
+    """fmt: the guarantees are about VALUES, so they must hold for named items too (names unrelated to the values);
+    iterations: MultiFit's bound is 1.22 + 2^-iterations for the number of iterations actually requested"""
+    kw = {"iterations": iterations} if iterations is not None else {}
+    return run_partition(algo, values, k, fmt, **kw)
 
 
 def c08_case(inp):
+    fmt, its = inp.get("fmt", "list"), inp.get("iterations")
     try:
-        c08_guarantee(inp["algo"], inp["values"], inp["k"])
+        c08_guarantee(inp["algo"], inp["values"], inp["k"], fmt, its)
     except deal.PostContractError as e:
-        r = run_partition(inp["algo"], inp["values"], inp["k"], "list")
-        raise deal.PostContractError(f"C08: {_c08_ok(inp['algo'], inp['values'], inp['k'], r)}") from None
+        r = run_partition(inp["algo"], inp["values"], inp["k"], fmt, **({"iterations": its} if its is not None else {}))
+        raise deal.PostContractError(f"C08: {_c08_ok(inp['algo'], inp['values'], inp['k'], r, its or 10)}") from None
     return nontrivial(inp["values"])
 
 
